@@ -11,6 +11,9 @@
        stored bare, control characters are stored as hexadecimal escapes, and in unquoted
        text the characters that end a token are never stored bare; the Sass reader and the
        plain-CSS reader agree on every representative (sibling cross-check).
+ (v)   escapers (loops that copy text character by character into a quoted form): in the branch taken for
+       a backslash every path writes the escaped form `\\{c}`; no path of that branch copies the bare
+       character.
 Whether decoded code points equal the source's is the runtime part of the property and is not claimed.
 """
 import unicodedata
@@ -143,6 +146,7 @@ def run(ctx, F):
                             ctx.fail("F5-radix-consistent", key, f"{f['path']} reads digits with radix {radices} but accumulates with `* {k}`: the decoded code point is not the one the escape denotes")
     ctx.floor("digit-accumulation loops", n_r, 1)
     escape_normalisers(ctx, tree)
+    backslash_branches(ctx, tree)
     ctx.explanation = ("Emitted-literal analysis of every `\\\\{:x}` template (delimiter in the template or the carry-space idiom in the same function), completeness of every character class used as a hex-digit test "
                        "(pattern ranges / literal sets evaluated to character sets; std is_ascii_hexdigit is complete), radix agreement between to_digit(R) and the accumulation constant.")
 
@@ -333,6 +337,65 @@ def escape_normalisers(ctx, tree):
                 ctx.fail("F9-escape-normaliser-siblings", key, f"the Sass reader and the plain-CSS reader disagree on how {name} stores {[repr(c) for c in diff][:5]}: {[(r0.get(c), r1.get(c)) for c in diff][:5]}")
             else:
                 ctx.ok("F9-escape-normaliser-siblings", key, f"{len(REPRESENTATIVES)} representatives agree")
+
+
+def backslash_branches(ctx, tree):
+    """(v) `if c == '\\' { .. }` inside a per-character loop of the string modules: every path of the branch
+    emits an escaped form (a template or literal starting with a backslash) and none pushes the bare char."""
+    n = 0
+    for f in tree.fn_list:
+        if not (f["path"].startswith("sass::string::") or f["path"].startswith("css::string::")):
+            continue
+        # escapers only (functions that write `\..` forms); decoders such as unquote() read backslashes
+        if not any(m.get("e") == "fmt" and (m.get("template") or "").startswith("\\") for m in A.walk(f["body"])):
+            continue
+        for node in A.walk(f["body"]):
+            if node.get("e") != "if":
+                continue
+            c = A.strip(node["cond"])
+            if not (c.get("e") == "bin" and c["op"] == "==" and A.strip(c["l"]).get("e") == "path" and A.lit_str(A.strip(c["r"])) == "\\"):
+                continue
+            var = A.strip(c["l"])["p"]
+            n += 1
+            key = f"{f['path']}|backslash branch"
+
+            def paths(x):
+                """list of per-path emission summaries: ('esc'|'raw'|'none')"""
+                x = A.strip(x)
+                if x.get("e") == "block":
+                    outs = [[]]
+                    for st in x["stmts"]:
+                        sub = paths(st.get("x") or st.get("init") or {})
+                        outs = [a + b for a in outs for b in sub]
+                    return outs
+                if x.get("e") == "if":
+                    t = paths(x["then"])
+                    e_ = paths(x["else"]) if x.get("else") is not None else [[]]
+                    return t + e_
+                if x.get("e") == "match":
+                    out = []
+                    for arm in x["arms"]:
+                        out += paths(arm["body"])
+                    return out
+                ev = []
+                for m in A.walk(x):
+                    if m.get("e") == "fmt" and (m.get("template") or "").startswith("\\"):
+                        ev.append("esc")
+                    if m.get("e") == "mcall" and m["m"] in ("push", "push_str", "write_char", "write_str") and m["args"]:
+                        a0 = A.strip(m["args"][0])
+                        lit = A.lit_str(a0)
+                        if lit is not None and lit.startswith("\\"):
+                            ev.append("esc")
+                        elif a0.get("e") == "path" and a0["p"] == var:
+                            ev.append("raw")
+                return [ev]
+            ps = paths(node["then"])
+            bad = [p_ for p_ in ps if "raw" in p_ or "esc" not in p_]
+            if bad:
+                ctx.fail("F6-backslash-escaped", key, f"{f['path']}: in the branch taken for a backslash, {len(bad)} of {len(ps)} path(s) copy the bare character or emit nothing escaped: a backslash of the text then reads back as the start of an escape")
+            else:
+                ctx.ok("F6-backslash-escaped", key, f"{len(ps)} path(s), all escaped")
+    ctx.floor("per-character backslash branches in the string modules", n, 1)
 
 
 def carry_space_idiom(f, tree):
